@@ -94,7 +94,7 @@ theorem textsOK_PT (inBr al : Bool) : ∀ (a : Expr), PT inBr al a = true → Te
     · have ih := textsOK_PT inBr false i hi
       have ha : isAnonAxis i = false := by simpa using hna
       have hl : isListLenNe1 i = false := by
-        cases i <;> simp_all [ellOperand, isListLenNe1, Expr.isAxis, Expr.isFlat, Expr.isBrackets, Expr.isConcat]
+        cases i <;> simp_all [ellOperand, isListLenNe1, Expr.isAxis, Expr.isFlat, Expr.isBrackets, Expr.isConcat, isEllAnon]
       refine ⟨?_, ?_, ?_⟩
       · simp only [Expr.print, Expr.ptree, ha, hl, Bool.false_eq_true, if_false, textsL_append, List.flatten_append,
           textsL, PTok.texts, List.append_nil, singleton_flatten, ih.1]
